@@ -8,7 +8,7 @@
 From Sci Require Import StdPath.Model StdPath.ModelRouting StdPath.Spec StdPath.Proofs StdPath.ProofsRev
      StdPath.ProofsEnc StdPath.ProofsRouting.
 From Sci Require StdPath.Bridge.
-From Sci Require Import StdPath.ProofsWalk StdPath.ProofsWalkTop.
+From Sci Require Import StdPath.ProofsWalk StdPath.ProofsWalkTop StdPath.ProofsOneHop.
 Local Open Scope N_scope.
 
 (** Err => the path bytes are exactly as they were: EVERY byte string, every validator, entry
@@ -311,6 +311,28 @@ Proof.
   intros. split; [apply Bridge.bridge_ingress|apply Bridge.bridge_egress]; assumption.
 Qed.
 Print Assumptions byte_advance_refines_structural.
+
+(** One-hop paths: the second hop field that [set_second_hop] builds -- on the model, and on the
+    view, whose result is the encoding of the model's ([Props_C12.onehop_set_second_hop_agrees]) --
+    authenticates at the second AS: HopMacValidator with the key of the second AS accepts it
+    under the chaining value after hop 1, with the ExpTime as finally stored (= that of hop 1).
+    For every MAC function whose output has the six bytes that are kept. *)
+Theorem onehop_second_hop_authentic :
+  forall (cmac : list N -> list N -> list N) (p : onehop) (ingress : N) (key : list N) (advanced : bool),
+    onehop_typed p = true -> ingress < 65536 ->
+    let beta := if advanced then i_segid (o_info p) else mac_beta_step (i_segid (o_info p)) (h_mac (o_hop1 p)) in
+    let blk := mac_input beta (i_ts (o_info p)) (h_exp (o_hop1 p)) ingress 0 in
+    (6 <= length (cmac key blk))%nat -> bytes_ok (cmac key blk) = true ->
+    let p' := oh_model_set_second_hop cmac p ingress key advanced in
+    h_exp (o_hop2 p') = h_exp (o_hop1 p)
+    /\ forall i st en,
+         v_hop (hop_mac_validator cmac key) i (enc_hop (o_hop2 p'))
+               (enc_info (mkInfo (i_flags (o_info p)) beta (i_ts (o_info p)))) st en = None.
+Proof.
+  intros cmac p ingress key advanced Ht Hin beta blk Hl Hb p'. split; [reflexivity|].
+  apply (oh_second_hop_authentic cmac p Ht ingress key advanced Hin Hl Hb).
+Qed.
+Print Assumptions onehop_second_hop_authentic.
 
 (** non-vacuity: with the Gallina AES-128-CMAC, a two-hop construction-direction segment chained
     as the theorem requires is forwarded by its first AS and delivered at its second *)
